@@ -576,6 +576,23 @@ func runC19(c *Ctx) {
 	// soak: every failing request class repeated many times with bodies close to the 1 MiB limit (resource
 	// accounting that leaks on an error path exhausts only after dozens of large requests), then probes
 	c19RejectedThenMinimal(c, srv)
+	// value-equivalent respellings of well-formed requests (numbers as 100.0 / 1e2 / "100", shuffled keys, unused
+	// fields with a wrong type): refused, or answered for exactly the values written - never for other values
+	{
+		rrng := c.RNG.Fork(1919)
+		n := 0
+		for _, k := range c18Cases(c, c.N(3000, 30000)) {
+			if rk, ok := respell(rrng, k); ok {
+				judgeREST(c, srv, rk)
+				n++
+			}
+			if rrng.Intn(6) == 0 && k.Method == "POST" {
+				judgeREST(c, srv, respellPath(rrng, k))
+				r.Count("respelled_paths", 1)
+			}
+		}
+		r.Count("respelled_requests", n)
+	}
 	c19Soak(c, srv, seq, probe)
 	srv = c19SkewProbes(c, srv)
 	if srv == nil {
@@ -614,7 +631,7 @@ func runC19(c *Ctx) {
 func init() {
 	register(&Prop{
 		ID: "C19",
-		Rule: "the real server binary on loopback receives a seeded shuffle of hostile requests (broken JSON, every field with every JSON type, numbers at and beyond 64-bit limits, skew/period/counter/timestamp extremes, unknown/contradictory/weird suites, bad hex, 1 MiB bodies and bodies above the limit, every method x every path, unknown paths, raw TCP fragments), sequentially with per-request server CPU accounting (/proc/<pid>/stat) and then on 32 connections, interleaved with well-formed probe requests judged by the C18 oracle; every response must be complete, 2xx only with the endpoint's success object, no single request may cost more than 2 CPU-seconds, refused skews must not accept, probes must stay correct and the process alive; " +
+		Rule: "the real server binary on loopback receives a seeded shuffle of hostile requests (broken JSON, every field with every JSON type, numbers at and beyond 64-bit limits, skew/period/counter/timestamp extremes, unknown/contradictory/weird suites, bad hex, 1 MiB bodies and bodies above the limit, every method x every path, unknown paths, raw TCP fragments), sequentially with per-request server CPU accounting (/proc/<pid>/stat) and then on 32 connections, interleaved with well-formed probe requests judged by the C18 oracle; every response must be complete, 2xx only with the endpoint's success object, no single request may cost more than 2 CPU-seconds, refused skews must not accept, value-equivalent respellings of well-formed requests (numbers as 100.0 / 1e2 / \"100\", shuffled keys, unused fields of a wrong type) must be refused or answered for exactly the values written (C18 oracle), probes must stay correct and the process alive; " +
 			"distinct_nontrivial counts distinct hostile (method, path, body) requests plus distinct probes",
 		Run: runC19,
 		Replay: func(c *Ctx, kind string, raw json.RawMessage) error {
